@@ -30,6 +30,7 @@ def malformed_stream(rng):
          b"/a.txt\r", b"/a.txt", b"/a\rb\r\n", b"/maps/gophermap\r\n", b"/umn/.Links\r\n", b"/umn/.cap/three.txt\r\n",
          b"/dir1/.abstract\r\n", b"/.cache.pygopherd.dir\r\n", b"/md/new/1.msg\r\n", b"/emptydir\r\n", b"/empty.txt\r\n",
          b"/mail.mbox|/MBOX-MESSAGE/2\r\n", b"/mail.mbox|/MBOX-MESSAGE/3\r\n", b"/mail.mbox|/MBOX-MESSAGE/18446744073709551616\r\n",
+         b"/mail.mbox|/MBOX-MESSAGE/" + b"7" * 5000 + b"\r\n", b"/md|/MAILDIR-MESSAGE/" + b"1" * 4301 + b"\r\n",
          b"/nope|/MBOX-MESSAGE/1\r\n", b"/nope|/MAILDIR-MESSAGE/1\r\n", b"/dir1/nope.mbox|/MBOX-MESSAGE/2\r\n", b"/dir1|/MBOX-MESSAGE/1\r\n",
          b"/a.txt|/MAILDIR-MESSAGE/1\r\n", b"/nope?/MBOX-MESSAGE/1\r\n"]
     out = [(g, False) for g in G] + [(g, True) for g in G[::3]]
@@ -61,7 +62,7 @@ def malformed_stream(rng):
           b"h  / 0\r\n", b"h /%zz 0\r\n", b"h /%00 0\r\n", b"h /mail.mbox%7C/MBOX-MESSAGE/9999 0\r\n", b"h /nonexistent 3\r\nabc", b"h /empty.txt 0\r\n",
           b"h /emptydir 0\r\n", b"h a.txt 0\r\n", b"h /a.txt 0", b"h /x%0Ay 0\r\n",
           "h / \u00b2\r\n".encode(), "h /a.txt \u2460\r\n".encode(), "h /a.txt \u0663\r\n".encode(), "h /a.txt 1\u00b2\r\n".encode(),
-          "h\u00e9 /a.txt 0\r\n".encode(), b"h /a.txt +1\r\n", b"h /a.txt 1_0\r\n", b"h /a.txt 0x10\r\n", b"h /a.txt  1\r\n"]
+          "h\u00e9 /a.txt 0\r\n".encode(), b"h /a.txt " + b"9" * 5000 + b"\r\n", b"h /a.txt " + b"0" * 5000 + b"\r\n", b"h /a.txt +1\r\n", b"h /a.txt 1_0\r\n", b"h /a.txt 0x10\r\n", b"h /a.txt  1\r\n"]
     out += [(s, False) for s in SP]
     return out
 
